@@ -390,3 +390,76 @@ def tally(chk, script, c_lines):
 def finding_key(script, res):
     op = (res.get("op") or "").split()
     return "%s:%s" % (res["kind"], op[1] if len(op) > 1 else "?")
+
+
+class _XX:
+    """second part: the C++ wrapper mpt::config_parser (mpt++/parse.cpp) through harness/drvxx_parse.cpp:
+    open / read / reset / read sequences on ONE parser object"""
+    id = "C08"
+    area = "parse"
+    driver = "drvxx_parse"
+    cxx = True
+    fixed_lines = 1
+    # nodes and values are C objects with hand-made vtables: UBSan's C++ vptr check cannot accept them
+    link_extra = ["-fno-sanitize=vptr"]
+
+    @staticmethod
+    def corpus(chk):
+        return [(n, s) for n, s in gen.corpus(id) if s and s[0].startswith("x ")]
+
+    @staticmethod
+    def scripts(tier, seed, scale=1):
+        out = []
+        r = gen.rng(id, tier, seed, "xx")
+        # fixed sequences: good file read twice, failing file in between, rewritten file, stale state after a failure
+        good = ["a {\nb=1\n}\nc=2\n", "o=1\n", "s {\n t {\n u=v w\n }\n}\n", "x=1\ny=2\n"]
+        bad = ["a {\n", "}\n", "n" * 300, "k" * 40 + " ", "a {\n b=1\n", "q\"\n"]
+        for desc in (None, "{*} =;!#", "[ ] = #", "|x| = #"):
+            for g in good:
+                for b in bad:
+                    lines = ["x new 255 255", "x fmt " + ("null" if desc is None else hx(desc)),
+                             "x file " + hx(g), "x open", "x read", "x reset", "x read", "x read",
+                             "x file " + hx(b), "x reset", "x read log", "x read",
+                             "x file " + hx("=1\n{\nz=3\n}\n"), "x reset", "x read",
+                             "x file " + hx(g), "x reset", "x read", "x open", "x read", "x end"]
+                    out.append(("xx:seq:%s:%d:%d" % (hx(desc or "d"), good.index(g), bad.index(b)), lines))
+        n = (150 if tier == "quick" else 1500) * scale
+        for k in range(n):
+            desc, style, delims = r.choice(GRAMMARS)
+            flags = r.choice(FLAGSETS + [(14, 2)])
+            sig = [ord(c) for c in "".join(delims) + "#!\"'`\\ \n\t=a1."] + [0x80, 0xff, 0x0b]
+            lines = ["x new %d %d" % flags, "x fmt " + ("null" if desc is None else hx(desc))]
+            opened = False
+            for _ in range(r.choice([2, 4, 7])):
+                text = _write(r, _tree(r, 0), style, delims)
+                data = _mutate(r, text, sig) if r.random() < 0.6 else text.encode("latin-1")
+                lines.append("x file " + hx(data))
+                lines.append("x open" if (not opened or r.random() < 0.3) else "x reset")
+                opened = True
+                if r.random() < 0.3:
+                    lines.append("x root " + (r.choice(ROOTS[3:])))
+                lines.append("x read" + (" log" if r.random() < 0.3 else ""))
+                if r.random() < 0.5:
+                    lines += ["x reset", "x read"]
+                if r.random() < 0.2:
+                    lines.append("x read")
+            lines.append("x end")
+            out.append(("xx:rnd:%d" % k, lines))
+        return out
+
+    @staticmethod
+    def nontrivial(script, c_lines):
+        return nontrivial(script, c_lines)
+
+    @staticmethod
+    def tally(chk, script, c_lines):
+        d = chk.__dict__.setdefault("distribution", {})
+        for ln in c_lines:
+            if ln.startswith("R ok sound") or ln.startswith("R err sound"):
+                k = "xx-read:" + ln.split()[1]
+                d[k] = d.get(k, 0) + 1
+
+    finding_key = staticmethod(lambda script, res: finding_key(script, res))
+
+
+extra_parts = [_XX]
